@@ -65,7 +65,7 @@ structure Song where
   bad : Bool := false
 deriving Repr
 
-def Song.t (s : Song) : Trk := s.tracks.getD s.cur (Trk.new s.tb 0)
+def Song.t (s : Song) : Trk := s.tracks.getD s.cur (Trk.new s.tb ((s.cur : Int) - 1))
 def Song.setT (s : Song) (t : Trk) : Song := { s with tracks := s.tracks.set s.cur t }
 
 /-- `Song::change_cur_track`: every track up to `no` comes into existence with its own default channel -/
@@ -134,7 +134,8 @@ def execNote (s : Song) (tk : Tok) : Song :=
 /-- `exec_note_n` (no chord / tie handling there) -/
 def execNoteN (s : Song) (tk : Tok) : Song :=
   let d := tk.data
-  if (d.take 5).any isVarRef then { s with bad := true } else
+  -- (the length text d[1] comes from get_note_length and cannot be a reference)
+  if isVarRef (d.getD 0 .none) || isVarRef (d.getD 2 .none) || isVarRef (d.getD 3 .none) || isVarRef (d.getD 4 .none) then { s with bad := true } else
   let t := s.t
   let notelen := Len.calcLength s.tb t.length (dataS d 1)
   let qlen := if dataI d 2 ≠ 0 then dataI d 2 else t.qlen
@@ -175,13 +176,6 @@ def toLoopTok (t : Tok) : Loop.Tok Tok :=
   | .loopBreak, _ => .lbreak
   | .loopEnd, _ => .lend
   | _, _ => .other t
-
-/-- run the loop machine until it leaves the token list (`some`) or the fuel is used up (`none`) -/
-def runFuel {α σ} (act : α → σ → σ) (toks : List (Loop.Tok α)) : Nat → Loop.Cfg σ → Option σ
-  | 0, _ => none
-  | f+1, c => match Loop.step act toks c with
-    | none => some c.2.2
-    | some c' => runFuel act toks f c'
 
 /-- the action of a non-loop token, with nesting-depth fuel `d` and per-level step fuel `F` -/
 def leaf (F : Nat) : Nat → Tok → Song → Song
@@ -225,7 +219,7 @@ def leaf (F : Nat) : Nat → Tok → Song → Song
     | .sub =>
       (match dep, tk.children with
        | d+1, some ch =>
-         (match runFuel (leaf F d) (ch.map toLoopTok) F (0, [], s) with
+         (match Loop.runFuel (leaf F d) (ch.map toLoopTok) F (0, [], s) with
           | some s' => if s'.bad then s' else s'.setT { s'.t with timepos := t.timepos }
           | none => { s with bad := true })
        | _, _ => { s with bad := true })
@@ -234,7 +228,7 @@ def leaf (F : Nat) : Nat → Tok → Song → Song
        | d+1, some ch =>
          let dl := Len.calcLength s.tb t.length (dataS tk.data 0)
          let nl := if tk.vi > 0 then Int.tdiv dl tk.vi else 0
-         (match runFuel (leaf F d) (ch.map toLoopTok) F (0, [], s.setT { t with length := nl }) with
+         (match Loop.runFuel (leaf F d) (ch.map toLoopTok) F (0, [], s.setT { t with length := nl }) with
           | some s' => if s'.bad then s' else s'.setT { s'.t with timepos := t.timepos + dl, length := t.length }
           | none => { s with bad := true })
        | _, _ => { s with bad := true })
@@ -243,6 +237,6 @@ def leaf (F : Nat) : Nat → Tok → Song → Song
 
 /-- `runner::exec(song, tokens)` on a fresh song -/
 def exec (F D : Nat) (toks : List Tok) (s : Song) : Option Song :=
-  runFuel (leaf F D) (toks.map toLoopTok) F (0, [], s)
+  Loop.runFuel (leaf F D) (toks.map toLoopTok) F (0, [], s)
 
 end Sakura.Ex2
